@@ -124,7 +124,8 @@ func c04Spice(rng *rand.Rand, p *gen.Project) {
 			n.R("maxLength", digits(3+rng.IntN(16)))
 		} else if n.Kind == gen.KString && len(n.Rules) == 0 && rng.IntN(6) == 0 {
 			// bytes that are not UTF-8, before and after an escape: the AST reports the replacement character for each
-			n.Lit = []string{"\"a\xffb\"", "\"\xfe-\\n-\xfe\"", "\"caf\xe9\"", "\"\xed\xa0\x80\"", "\"\xf0\x9f\x98\"", "\"\\t\xc3\"", "\"\xc3(\"", "\"ok\xe2\x82\""}[rng.IntN(8)]
+			n.Lit = []string{"\"a\xffb\"", "\"\xfe-\\n-\xfe\"", "\"caf\xe9\"", "\"\xed\xa0\x80\"", "\"\xf0\x9f\x98\"", "\"\\t\xc3\"", "\"\xc3(\"", "\"ok\xe2\x82\"",
+				`"a\ud800\udc00b"`, `"a\udbff\udfffb"`, `"\ud83d\ude00"`, `"\udbff\udc00"`, `"\ud800\udfff"`, `"\uD83D\uDE00 \ud800"`, `"\udfff\ud800"`}[rng.IntN(15)]
 		}
 		if n.Kind == gen.KArray && len(n.Rules) == 0 && rng.IntN(4) == 0 {
 			n.R("maxItems", digits(2+rng.IntN(17)))
